@@ -231,34 +231,47 @@ func C01(c *fw.Ctx) {
 		}
 		return model.Bin(op, l, r)
 	}
-	L := func(i int) *model.N { return model.Num(float64([]int{7, 3, 2, 5}[i])) }
-	for _, o1 := range reps {
-		for _, o2 := range reps {
-			for _, o3 := range reps {
-				shapes := []*model.N{
-					mk(o3, mk(o2, mk(o1, L(0), L(1)), L(2)), L(3)),
-					mk(o3, mk(o1, L(0), mk(o2, L(1), L(2))), L(3)),
-					mk(o2, mk(o1, L(0), L(1)), mk(o3, L(2), L(3))),
-					mk(o1, L(0), mk(o3, mk(o2, L(1), L(2)), L(3))),
-					mk(o1, L(0), mk(o2, L(1), mk(o3, L(2), L(3)))),
-				}
-				for si, sh := range shapes {
-					exprCase(sh, fmt.Sprintf("triple|shape%d", si))
-					// (c) printing is unchanged by ladder-conform parentheses
-					if !c.Mine() {
-						continue
+	// leaves: numbers; and, for the printing clause only, three further sets mixing numbers with texts that
+	// spell numbers, other texts, booleans and nil (what an operator makes of them must not depend on
+	// whether the tree is written with its parentheses)
+	leafSets := [][4]func() *model.N{
+		{func() *model.N { return model.Num(7) }, func() *model.N { return model.Num(3) }, func() *model.N { return model.Num(2) }, func() *model.N { return model.Num(5) }},
+		{func() *model.N { return model.Num(1) }, func() *model.N { return model.Str("2") }, func() *model.N { return model.Num(3) }, func() *model.N { return model.Str("x") }},
+		{func() *model.N { return model.Str("5") }, func() *model.N { return model.Num(1) }, func() *model.N { return model.Str("\u099f\u09be\u0995\u09be") }, func() *model.N { return model.Num(2) }},
+		{func() *model.N { return model.Num(1) }, func() *model.N { return model.Num(1) }, func() *model.N { return model.Str("\u09e8") }, func() *model.N { return model.Bool(true) }},
+	}
+	for ls := range leafSets {
+		L := func(i int) *model.N { return leafSets[ls][i]() }
+		for _, o1 := range reps {
+			for _, o2 := range reps {
+				for _, o3 := range reps {
+					shapes := []*model.N{
+						mk(o3, mk(o2, mk(o1, L(0), L(1)), L(2)), L(3)),
+						mk(o3, mk(o1, L(0), mk(o2, L(1), L(2))), L(3)),
+						mk(o2, mk(o1, L(0), L(1)), mk(o3, L(2), L(3))),
+						mk(o1, L(0), mk(o3, mk(o2, L(1), L(2)), L(3))),
+						mk(o1, L(0), mk(o2, L(1), mk(o3, L(2), L(3)))),
 					}
-					p1 := model.Render([]*model.N{model.Parenthesize(model.Print(sh), true)})
-					p2 := model.Render([]*model.N{model.Parenthesize(model.Print(sh), false)})
-					o1 := h.RunFile(p1, h.Opts{})
-					o2 := h.RunFile(p2, h.Opts{})
-					c.Eval(p1+p2, true)
-					if abnormal(c, o1, "file", p1, fw.Replay{CLI: true}) || abnormal(c, o2, "file", p2, fw.Replay{CLI: true}) {
-						continue
-					}
-					if o1.Stdout != o2.Stdout || o1.Stderr != o2.Stderr || o1.Status != o2.Status {
-						c.Violate(fw.Replay{Sig: "C01|paren-print", What: "adding ladder-conform parentheses changes what the program prints", Mode: "file", Program: p1, Related: []string{p2}, CLI: true,
-							Expected: fmt.Sprintf("%q / %q", o2.Stdout, o2.Stderr), Observed: fmt.Sprintf("%q / %q", o1.Stdout, o1.Stderr), InStdout: o1.Stdout, InStderr: o1.Stderr, InStatus: o1.Status})
+					for si, sh := range shapes {
+						if ls == 0 {
+							exprCase(sh, fmt.Sprintf("triple|shape%d", si))
+						}
+						// (c) printing is unchanged by ladder-conform parentheses
+						if !c.Mine() {
+							continue
+						}
+						p1 := model.Render([]*model.N{model.Parenthesize(model.Print(sh), true)})
+						p2 := model.Render([]*model.N{model.Parenthesize(model.Print(sh), false)})
+						o1 := h.RunFile(p1, h.Opts{})
+						o2 := h.RunFile(p2, h.Opts{})
+						c.Eval(p1+p2, true)
+						if abnormal(c, o1, "file", p1, fw.Replay{CLI: true}) || abnormal(c, o2, "file", p2, fw.Replay{CLI: true}) {
+							continue
+						}
+						if o1.Stdout != o2.Stdout || o1.Stderr != o2.Stderr || o1.Status != o2.Status {
+							c.Violate(fw.Replay{Sig: "C01|paren-print", What: "adding ladder-conform parentheses changes what the program prints", Mode: "file", Program: p1, Related: []string{p2}, CLI: true,
+								Expected: fmt.Sprintf("%q / %q", o2.Stdout, o2.Stderr), Observed: fmt.Sprintf("%q / %q", o1.Stdout, o1.Stderr), InStdout: o1.Stdout, InStderr: o1.Stderr, InStatus: o1.Status})
+						}
 					}
 				}
 			}
